@@ -23,7 +23,7 @@ import Mathlib.Tactic.SplitIfs
     3. `C14_negative_rejected`, `C14_accepted_nonneg`   a negative CURRENT sample is an `Err`
     4. `C14_follows_trace`    accepted `ssStep`: `time = tCur`, `speed = vCur`, the consist is solved
                               for exactly the train's wheel power over the trace's own step size
-    5. `C14_first_sample_unchecked`  REMARK / finding: the sign of the PREVIOUS sample is never
+    5. `C14_first_sample_unchecked`, `C14_first_sample_unchecked_whole_step`  REMARK / finding: the sign of the PREVIOUS sample is never
                               inspected, so `speed[0] < 0` is accepted (the Rust loop starts at `i = 1`)
     6. `C14_rate_limit_uses_previous_dt`  REMARK: the rate-limited traction bound is computed with the
                               step size of the PREVIOUS step (`state.dt` before it is overwritten)
@@ -222,6 +222,20 @@ theorem C14_follows_trace : C14_follows_trace_statement := by
   · obtain ⟨_, _, _, _, _, _, he, _⟩ := consistSolve_inv h4
     exact he
 
+/-- non-vacuity: a whole accepted step with a diesel consist — (t, v) = (0, 1) → (1, 2): wheel power
+    1.5 W (inertia) + 1.5 W (resistance) = 3 W, consist output 3 W, consist energy 3 J -/
+example : (∃ con' res' s', ssStep ExW.kc ExW.c ExW.g ExW.rho ExW.tpc ExW.strap ExW.con ExW.s 1 2 0 1
+      = .ok (con', res', s')) ∧
+    okVal ((ssStep ExW.kc ExW.c ExW.g ExW.rho ExW.tpc ExW.strap ExW.con ExW.s 1 2 0 1).bind fun x =>
+      pure [x.2.2.k.time, x.2.2.r.speed, x.2.2.k.pwrWhlOut, x.1.state.pwrOut, x.1.state.energyOut])
+      = some [1, 2, 3, 3, 3] :=
+  ⟨ExW.step_ok', by decide +kernel⟩
+
+/-- non-vacuity of the rejection: the same step towards a negative sample -/
+example : ssStep ExW.kc ExW.c ExW.g ExW.rho ExW.tpc ExW.strap ExW.con ExW.s 1 (-1) 0 1
+    = .err "negative-speed" :=
+  C14_negative_rejected ℚ _ _ _ _ _ _ _ _ _ _ _ _ (by norm_num)
+
 /-! ## 5. Remark / finding: the first trace sample is never sign-checked -/
 
 /-- **`speed[0]` is never tested.**  `SetSpeedTrainSim::walk` starts at `i = 1` and `solve_step` tests
@@ -237,6 +251,16 @@ theorem C14_first_sample_unchecked :
               (s'.k.totalDist, s'.k.linkIdxFront, s'.k.offsetInLink, s'.k.pwrRes)))
       = some ((9, 10, 480, 280), (120, 5, 80, -40000)) := by
   refine ⟨by norm_num, by norm_num, by decide +kernel⟩
+
+/-- the same on a WHOLE step (diesel consist, every check on): `speed[0] = −3`, `speed[1] = 1` is
+    accepted; the train moves 1 m backwards (500 → 499 m, `total_dist` +1 m) and the consist is asked
+    for −5 W of dynamic braking. -/
+theorem C14_first_sample_unchecked_whole_step :
+    okVal ((ssStep ExW.kc ExW.c ExW.g ExW.rho ExW.tpc ExW.strap ExW.con ExW.s (-3) 1 0 1).bind fun x =>
+      pure [x.2.2.k.time, x.2.2.r.speed, x.2.2.r.offset, x.2.2.k.totalDist, x.2.2.k.pwrWhlOut,
+            x.1.state.pwrOut])
+      = some [1, 1, 499, 1, -5, -5] := by
+  decide +kernel
 
 /-- the general form: nothing in an accepted `ssStep` constrains the sign of `vPrev` — the only
     sign test is on `vCur` (`ssStep_inv` lists every check made). If the sub-results for a trace step
